@@ -1833,6 +1833,9 @@ class Evaluator:
                 return bytes(a0)
             if isinstance(a0, bytes) or tm.tyof(a0) == tm.BYTES:
                 return a0
+            x = tm.bytewise(a0)
+            if x is not None:
+                return x
             return T("tobytes", (tm._fz(a0),), tm.BYTES)
         if n == "range":
             if all(isinstance(p, int) for p in pos):
